@@ -29,6 +29,8 @@ def cases(tier, seed):
         if i % 3 == 0:   # repeated names
             nf = g["nfields"] = max(3, min(g["nfields"], 7))
             base = ["rho", "temp", "Y(H2)", "rho", "temp", "rho", "x(1)"]
+            if i % 6 == 3:     # next to a field literally called like the key made up for a repetition
+                base = ["rho", "rho_2", "rho", "temp", "rho_2", "rho", "rho_3"]
             g["names"] = base[:nf]
             del g["nfields"]
         elif i % 3 == 1 and g["nfields"] <= 12:   # unusual but valid names: metacharacters, blanks, UTF-8 text
